@@ -162,6 +162,15 @@ def gen_poly(rng, n, tier):
             xs = [p[0] for p in pts]; ys = [p[1] for p in pts]
             q = [rng.uniform(min(xs) - 30 * sc, max(xs) + 30 * sc), rng.uniform(min(ys) - 30 * sc, max(ys) + 30 * sc)]
         out.append({'pts': pts, 'q': q, 'edited': rng.random() < 0.3, 'qtrack': rng.choice([None, None, 'fresh', 'mapped'])})
+    for _ in range(max(8, n // 100)):
+        # long polylines digitised finely one way and coarsely the other (an out-and-back road): the nearest segment is far, in index, from the nearest vertex
+        m = rng.choice([150, 301, 420]); h = rng.choice([6.0, 10.0, 15.5])
+        L = (m - 1) * 0.5
+        pts = [[i * 0.5, 0.0] for i in range(m)] + [[L + 1.5, h], [L / 2 + 1.25, h + 0.5], [0.0, h]]
+        if rng.random() < 0.5:
+            pts = pts[::-1]
+        q = [rng.uniform(0.1 * L, 0.9 * L), rng.choice([0.55, 0.6, 0.75, 0.9]) * h]
+        out.append({'pts': pts, 'q': q, 'edited': False, 'qtrack': rng.choice([None, 'fresh'])})
     return out
 
 
@@ -240,9 +249,23 @@ def oracle_poly(case, obs):
 
 
 def finding_poly(case, obs, why):
+    # the open finding concerns the projection on a vertical segment: it explains a failure only when the segment returned, or a segment
+    # that is (one of) the nearest, is vertical - not any failure on a polyline that happens to contain a vertical segment somewhere
     pts = case['pts']
-    vert = any(pts[i][0] == pts[i + 1][0] and pts[i][1] != pts[i + 1][1] for i in range(len(pts) - 1))
-    return 'vertical-segment' if vert else None
+    isv = lambda i: pts[i][0] == pts[i + 1][0] and pts[i][1] != pts[i + 1][1]
+    if not any(isv(i) for i in range(len(pts) - 1)):
+        return None
+    if 'exc' in obs:
+        return 'vertical-segment'
+    x, y = case['q']
+    cand = set()
+    if isinstance(obs.get('i'), int) and 0 <= obs['i'] < len(pts) - 1:
+        cand.add(obs['i'])
+    ds = [(nearest_exact(pts[i] + pts[i + 1], x, y)[0], i) for i in range(len(pts) - 1) if pts[i] != pts[i + 1]]
+    if ds:
+        dmin = min(d for d, _ in ds)
+        cand |= {i for d, i in ds if d <= dmin + 1e-9 * (1 + dmin)}
+    return 'vertical-segment' if any(isv(i) for i in cand) else None
 
 
 def shrink_poly(case):
